@@ -406,31 +406,35 @@ Section Model.
       let c' := mapply S (transpose r) c in
       mkT4 TORUSZ (vlist c' ++ mcp s) (Some (v0 S, r)).
 
-  Definition convert_cone (s : msurf T) : res (list (t4surf T * Z)) :=
+  (* convert_cone: the cone itself ... *)
+  Definition cone_part (s : msurf T) (a : T) : t4surf T :=
     let p := mpt s in let u := maxis s in
+    let theta := sofZ S 180 *! a /! spi S in
+    if isz (vx u) && isz (vy u) then plain CONEZ [vx p; vy p; vz p; theta]
+    else if isz (vy u) && isz (vz u) then plain CONEX [vx p; vy p; vz p; theta]
+    else if isz (vz u) && isz (vx u) then plain CONEY [vx p; vy p; vz p; theta]
+    else plain CONE [vx p; vy p; vz p; theta; vx u; vy u; vz u].
+
+  (* ... and the auxiliary plane through the apex that keeps one sheet.
+     PLANEX/Y/Z have their normal along the positive axis: the side is flipped
+     when the cone axis points the other way *)
+  Definition sheet_plane (s : msurf T) (n : Z) : t4surf T * Z :=
+    let u := maxis s in
+    let pos := neg_pos s in
+    let side := (- n)%Z in
+    let flip := fun c : T => if sltb S 0! c then side else (- side)%Z in
+    if isz (vx u) && isz (vy u) then (plain PLANEZ [(-! pos) /! vz u], flip (vz u))
+    else if isz (vy u) && isz (vz u) then (plain PLANEX [(-! pos) /! vx u], flip (vx u))
+    else if isz (vz u) && isz (vx u) then (plain PLANEY [(-! pos) /! vy u], flip (vy u))
+    else (plain PLANE [vx u; vy u; vz u; pos], side).
+
+  Definition convert_cone (s : msurf T) : res (list (t4surf T * Z)) :=
     match mcp s with
     | _ :: a :: _ =>
-        let theta := sofZ S 180 *! a /! spi S in
-        let cone :=
-          if isz (vx u) && isz (vy u) then plain CONEZ [vx p; vy p; vz p; theta]
-          else if isz (vy u) && isz (vz u) then plain CONEX [vx p; vy p; vz p; theta]
-          else if isz (vz u) && isz (vx u) then plain CONEY [vx p; vy p; vz p; theta]
-          else plain CONE [vx p; vy p; vz p; theta; vx u; vy u; vz u] in
         match mnap s with
-        | None => Ok [(cone, 1%Z)]
-        | Some 0%Z => Ok [(cone, 1%Z)]
-        | Some n =>
-            let pos := neg_pos s in
-            let side := (- n)%Z in
-            (* PLANEX/Y/Z have their normal along the positive axis: the side
-               is flipped when the cone axis points the other way *)
-            let flip := fun c : T => if sltb S 0! c then side else (- side)%Z in
-            let plane_side :=
-              if isz (vx u) && isz (vy u) then (plain PLANEZ [(-! pos) /! vz u], flip (vz u))
-              else if isz (vy u) && isz (vz u) then (plain PLANEX [(-! pos) /! vx u], flip (vx u))
-              else if isz (vz u) && isz (vx u) then (plain PLANEY [(-! pos) /! vy u], flip (vy u))
-              else (plain PLANE [vx u; vy u; vz u; pos], side) in
-            Ok [(cone, 1%Z); plane_side]
+        | None => Ok [(cone_part s a, 1%Z)]
+        | Some 0%Z => Ok [(cone_part s a, 1%Z)]
+        | Some n => Ok [(cone_part s a, 1%Z); sheet_plane s n]
         end
     | _ => Err EIndex
     end.
